@@ -337,7 +337,7 @@ class SymChars:
         return parse_int(self, base)
 
     def __sx_float__(self):
-        raise Unsupported('float() of a symbolic string')
+        return parse_float(self)
 
 
 def fresh(name, n, lo=0, hi=0x10FFFF, register=True):
@@ -375,6 +375,46 @@ def parse_int(s, base=10):
     if prev_us:
         raise ValueError('invalid literal for int() with base 10')
     return val * sign
+
+
+_FLOAT_RE = (r'[-+]?(?:(?P<i>\d+(?:_\d+)*)(?:\.(?P<f>\d+(?:_\d+)*)?)?(?P<e>[eE][-+]?\d+(?:_\d+)*)?'
+             r'|\.(?P<g>\d+(?:_\d+)*)(?P<h>[eE][-+]?\d+(?:_\d+)*)?|(?P<w>inf|infinity|nan))')
+
+
+def parse_float(s):
+    """CPython float(str) grammar (ASCII): accept / reject decided over character classes; the
+    value is exact for plain decimals, opaque for exponents, underscores, inf and nan"""
+    import re as _re
+    from fractions import Fraction
+    from . import remodel, floats
+    t = s.strip()
+    if not isinstance(t, SymChars):
+        return float(t)
+    m = remodel.SxPattern(_FLOAT_RE, _re.IGNORECASE).fullmatch(t)
+    if m is None:
+        raise ValueError('could not convert string to float')
+    g = m.groupdict()
+    if g.get('w') is not None or g.get('e') is not None or g.get('h') is not None:
+        return floats.OpaqueFloat('float() of symbolic text with exponent / inf / nan')
+    digits = []
+    k = 0
+    for part, frac in ((g.get('i'), False), (g.get('f'), True), (g.get('g'), True)):
+        if part is None:
+            continue
+        for c in as_cps(part):
+            if isinstance(c, int) and c == 95:
+                continue
+            if not isinstance(c, int) and bool(c == 95):
+                return floats.OpaqueFloat('float() of symbolic text with underscores')
+            digits.append(c - 48)
+            if frac:
+                k += 1
+    n = 0
+    for d in digits:
+        n = n * 10 + d
+    if as_cps(t)[0] == 45:
+        n = -n
+    return floats.SymFloat(0, 1)._round_result(n, 10 ** k, Fraction(0), True)
 
 
 # ---------------------------------------------------------------------------
